@@ -97,6 +97,8 @@ def gen_wrapped(ch):
         inner = [S.gen_storage(ch, g, "isto", ["ni"], feats),
                  S.gen_transport(ch, g, "itr", ["ni", "n1"], feats),
                  S.gen_contract(ch, g, "icon", "ni", "q", (0.0, 2.0), feats)]
+        if ch.pick("inner_name_clash", [False, True]):
+            inner[2]["name"] = "mkt"   # names only have to be unique per portfolio: an inner asset may be called like a top-level one
         st = dict(type="StructuredAsset", name="st", nodes=["n1"], portfolio=inner)
         if kind == "struct_win":
             w = ch.pick("st.window", S.window_menu(g.T)[1:5])
